@@ -91,3 +91,67 @@ Fixpoint mknown_from (c : cfg) (m : mstate) (acts : list mact) : bool :=
   | a :: acts' => mknown_from c (fst (mstep c m a)) acts'
   end.
 Definition mknown_C11 (c : cfg) (acts : list mact) : bool := mknown_from c minit acts.
+
+(* ---- which buffered per-window results enter an emission (synchronisation policies) ---------------------------------
+   SingleThread mode buffers with EXTEND semantics: the buffer of window i is the concatenation of the results of its
+   firings since the buffers were last cleared; Wait and Timeout clear after every emission, Steal never clears.
+   MultiThread mode (coordinator) buffers with REPLACE semantics: the buffer of window i is its LATEST result. *)
+Definition wbuf (i : N) (l : list (N * list binding)) : list binding :=
+  flat_map (fun r => if fst r =? i then snd r else []) l.
+
+Fixpoint latest (i : N) (l : list (N * list binding)) : option (list binding) :=
+  match l with
+  | [] => None
+  | r :: l' => match latest i l' with
+               | Some x => Some x
+               | None => if fst r =? i then Some (snd r) else None
+               end
+  end.
+
+(* the result (window, rows) a firing sends to the channel *)
+Definition result_of (c : cfg) (st : state) (i : N) (content : list triple) : N * list binding :=
+  (i, eval_bgp (block c i) (store_after i content st)).
+
+(* does a Drain emit?  (something was pending and now every window has a buffer) *)
+Definition drain_emits (c : cfg) (st : state) : bool :=
+  match chan st with
+  | [] => false
+  | _ => N.of_nat (length (absorb_extend (buffers st) (chan st))) =? nwin c
+  end.
+Definition clears (p : policy) : bool := match p with Steal => false | _ => true end.
+
+(* the firing results of a single-thread history since the buffers were last cleared *)
+Fixpoint since_clear (c : cfg) (st : state) (g : list (N * list binding)) (acts : list action) : list (N * list binding) :=
+  match acts with
+  | [] => g
+  | Fire i content :: acts' => since_clear c (fire c i content st) (g ++ [result_of c st i content]) acts'
+  | Drain :: acts' => since_clear c (fst (drain c st)) (if drain_emits c st && clears (pol c) then [] else g) acts'
+  end.
+Definition results_since_clear (c : cfg) (acts : list action) := since_clear c init [] acts.
+
+(* the coordinator on its own: a sequence of batches and deadlines *)
+Fixpoint crun (c : cfg) (cs : cstate) (es : list cevent) : cstate * list (list binding) :=
+  match es with
+  | [] => (cs, [])
+  | e :: es' => let '(cs1, o) := cstep c cs e in let '(cs2, os) := crun c cs1 es' in (cs2, o :: os)
+  end.
+Definition consumed (es : list cevent) : list (N * list binding) :=
+  flat_map (fun e => match e with Batch rs => rs | Deadline => [] end) es.
+
+(* the buffers an event lets the coordinator see, the windows that have delivered in the current cycle, and whether it emits *)
+Definition bufs_after (cs : cstate) (e : cevent) : list (N * list binding) :=
+  match e with Batch rs => absorb_replace (c_bufs cs) rs | Deadline => c_bufs cs end.
+Definition trig_after (cs : cstate) (e : cevent) : list N :=
+  match e with Batch rs => fold_left (fun t r => nadd (fst r) t) rs (c_trig cs) | Deadline => c_trig cs end.
+Definition cemits (c : cfg) (cs : cstate) (e : cevent) : bool :=
+  match e with
+  | Batch [] => false
+  | Batch _ =>
+      (N.of_nat (length (trig_after cs e)) =? nwin c) ||
+      (match pol c with Steal => N.of_nat (length (bufs_after cs e)) =? nwin c | _ => false end)
+  | Deadline =>
+      match c_trig cs, pol c with
+      | _ :: _, TimeoutSteal => N.of_nat (length (c_bufs cs)) =? nwin c
+      | _, _ => false
+      end
+  end.
